@@ -167,6 +167,12 @@ FAMILIES = [
                                               'start = (X() << "b") | (X << "c") | [Expect(X()), X]\nX = /[a-z]/ |> `note`\n'),
     ('rule-passed-by-name-and-referenced', lambda k: '```\nimport collections\nCALLS = collections.Counter()\ndef note(x):\n    CALLS[x] += 1\n    return x\n```\n'
                                              'start = (Par(X) << "!") | (X << "?") | [Expect(Par(x=X)), X]\nPar(x) = x | ("(" >> x << ")")\nX = /[a-z]/ |> `note`\n'),
+    # rules whose whole body is a reference to another rule or class (aliases), the alias and its target both tried at
+    # one position: directly, through a second alias, through a lookahead, in either order
+    ('alias-rule', lambda k: 'start = Pair | Single\nPair = [Item, ",", Item]\nSingle = Word\nItem = Word\nWord = /[a-z]/ >> Opt(Word)\n'),
+    ('alias-chain', lambda k: 'start = [Expect(A), B, Expect(Opt(C))] | [C, "!"] | A\nA = B\nB = C\nC = /[a-z]/ >> Opt(A)\n'),
+    ('alias-of-class', lambda k: 'start = [Expect(Item), Thing] | [Thing, "!"] | Item\nItem = Thing\nclass Thing { w: /[a-z]/; rest: Opt(Item) }\n'),
+    ('alias-target-first', lambda k: 'start = [Word, "!"] | [Item, "?"] | Alias2\nItem = Word\nAlias2 = Item\nWord = /[a-z]/ >> Opt(Alias2)\n'),
     ('side-effect', lambda k: '```\nimport collections\nCALLS = collections.Counter()\ndef note(x):\n    CALLS[x] += 1\n    return x\n```\nstart = [A, "x"] | [A, "y"] | A\nA = /[a-z]+/ |> `note`\n'),
 ]
 
